@@ -1214,6 +1214,39 @@ impl CollectionV3 {
     }
 }
 
+/// Verification hooks: pass-through access to the private (de)serialisers, so that a harness
+/// can drive the name and descriptor codecs directly (without ZSTD and without an archive).
+#[cfg(ragc_verif)]
+impl CollectionV3 {
+    pub fn verif_serialize_sample_names(&self) -> Vec<u8> {
+        self.serialize_sample_names()
+    }
+
+    pub fn verif_deserialize_sample_names(&mut self, data: &[u8]) -> Result<()> {
+        self.deserialize_sample_names(data)
+    }
+
+    pub fn verif_serialize_contig_names(&self, id_from: usize, id_to: usize) -> Vec<u8> {
+        self.serialize_contig_names(id_from, id_to)
+    }
+
+    pub fn verif_deserialize_contig_names(&mut self, data: &[u8], i_sample: usize) -> Result<()> {
+        self.deserialize_contig_names(data, i_sample)
+    }
+
+    pub fn verif_serialize_contig_details(&mut self, id_from: usize, id_to: usize) -> [Vec<u8>; 5] {
+        self.serialize_contig_details(id_from, id_to)
+    }
+
+    pub fn verif_deserialize_contig_details(
+        &mut self,
+        v_data: &[Vec<u8>; 5],
+        i_sample: usize,
+    ) -> Result<()> {
+        self.deserialize_contig_details(v_data, i_sample)
+    }
+}
+
 #[cfg(test)]
 mod tests {
     use super::*;
